@@ -916,6 +916,8 @@ def cat(tensors, dim=0):
 
     if tensors[0].is_ttm:
         raise InvalidArguments("Not implemented for tensor matrices.")
+    if not isinstance(dim, int) or dim < 0 or dim >= len(tensors[0].N):
+        raise InvalidArguments("The concatenation dimension must be an integer between 0 and the number of dimensions minus 1.")
     Rs = [tensors[0].R]
 
     for i in range(1, len(tensors)):
